@@ -265,8 +265,93 @@ func c12KSched(r *Run) {
 	r.CountN("ksched.cases", len(ops))
 }
 
+// c12MemCopyFlushOrder: a memory-copy command with flush requests (2 GPUs, dirty buffer) on the real
+// Driver.Tick; the responses arrive either with both flush responses first, or with the second
+// GPU's flush response after the copy response (Lean: W.Copy.memcopy_completes_full_refuted /
+// memcopy_completes_partial / memcopy_stuck_when_flush_last).
+func c12MemCopyFlushOrder(r *Run, flushLast bool) {
+	d := driver.MakeBuilder().WithEngine(&fakeEngine{}).WithPageTable(vm.NewPageTable(12)).WithLog2PageSize(12).Build("Driver")
+	gpuPort := d.GetPortByName("GPU")
+	(&fakeConn{name: "c"}).PlugIn(gpuPort)
+	var cps []sim.Port
+	for i := 0; i < 2; i++ {
+		cp := sim.NewPort(nil, 16, 16, fmt.Sprintf("FakeGPU%d.ToDriver", i+1))
+		cps = append(cps, cp)
+		d.RegisterGPU(cp, driver.DeviceProperties{CUCount: 4, DRAMSize: 1 << 28})
+	}
+	ctx := d.Init()
+	d.SelectGPU(ctx, 1)
+	q := d.CreateCommandQueue(ctx)
+	buf := d.AllocateMemory(ctx, 4096)
+	var out []sim.Msg
+	run := func() {
+		for round := 0; round < 40; round++ {
+			for k := 0; k < 1000 && d.Tick(); k++ {
+			}
+			got := false
+			for m := gpuPort.RetrieveOutgoing(); m != nil; m = gpuPort.RetrieveOutgoing() {
+				out = append(out, m)
+				got = true
+			}
+			if !got {
+				return
+			}
+		}
+	}
+	desc := "2 GPUs; LaunchKernel + response (marks the buffers L2-dirty); MemCopyH2D of 64 bytes; responses: "
+	d.Enqueue(q, &driver.LaunchKernelCommand{ID: sim.GetIDGenerator().Generate()})
+	run()
+	if len(out) != 1 {
+		r.Failf("C12.harness.memcopy-setup", desc, "expected one kernel request, got %d", len(out))
+		return
+	}
+	gpuPort.Deliver(protocol.NewLaunchKernelRsp(cps[0].AsRemote(), gpuPort.AsRemote(), out[0].Meta().ID))
+	run()
+	out = nil
+	d.EnqueueMemCopyH2D(q, buf, make([]byte, 64))
+	run()
+	var flush, copies []sim.Msg
+	for _, m := range out {
+		switch m.(type) {
+		case *protocol.FlushReq:
+			flush = append(flush, m)
+		case *protocol.MemCopyH2DReq:
+			copies = append(copies, m)
+		}
+	}
+	if len(flush) != 2 || len(copies) != 1 {
+		r.Failf("C12.harness.memcopy-setup", desc, "expected 2 flush + 1 copy request, got %d + %d", len(flush), len(copies))
+		return
+	}
+	order := []sim.Msg{flush[0], flush[1], copies[0]}
+	desc += "flush GPU1, flush GPU2, copy"
+	if flushLast {
+		order = []sim.Msg{flush[0], copies[0], flush[1]}
+		desc = strings.TrimSuffix(desc, "flush GPU1, flush GPU2, copy") + "flush GPU1, copy, flush GPU2"
+	}
+	for _, m := range order {
+		rsp := sim.GeneralRspBuilder{}.WithSrc(m.Meta().Dst).WithDst(gpuPort.AsRemote()).WithOriginalReq(m).Build()
+		if gpuPort.Deliver(rsp) != nil {
+			r.Failf("C12.harness.deliver", desc, "cannot deliver response")
+			return
+		}
+		run()
+	}
+	r.Checked("memcopy-flush-order")
+	if q.NumCommand() != 0 {
+		sig := "C12.driver.memcopy-not-drained"
+		if flushLast {
+			sig = "C12.driver.memcopy-flush-last"
+		}
+		r.Failf(sig, desc, "every response was delivered and the driver is asleep, but the memory-copy command is still queued (IsRunning=%v): DrainCommandQueue on this queue never returns", q.IsRunning)
+	}
+	r.Count("wake.memcopy-flush-order")
+}
+
 func runC12Deep(r *Run, rng *Rng, replay string) {
 	c12KSched(r)
+	c12MemCopyFlushOrder(r, false)
+	c12MemCopyFlushOrder(r, true)
 	nenv, per := 4, 12
 	if r.Tier == "thorough" {
 		nenv, per = 40, 40
